@@ -397,6 +397,10 @@ class OnePortTranslator:
         """X = 0; for arg in self.args: X += arg.<attr>; return X  ->  ('sum', attr)
            return 1 / self.<attr>                                   ->  ('inv', attr)"""
         fn, b = self.body_of(cname, meth)
+        # an initial value problem is handed to the netlist route as a whole (same value: code_eq_spec)
+        if meth in ('Voc', 'Isc') and b and isinstance(b[0], ast.If) and not b[0].orelse and ast.unparse(b[0].test) == 'self.is_IVP' \
+                and [ast.unparse(x) for x in b[0].body] == ['return self.cct.%s(1, 0)' % meth]:
+            b = b[1:]
         u = [ast.unparse(s) for s in b]
         if len(b) == 3 and isinstance(b[0], ast.Assign) and ast.unparse(b[0].value) == '0' and isinstance(b[1], ast.For) \
                 and ast.unparse(b[1].iter) == 'self.args' and len(b[1].body) == 1 and isinstance(b[1].body[0], ast.AugAssign) \
